@@ -90,7 +90,7 @@ def plan(tier, seed):
     # next is built, one key and then a new key every time - every search correct
     for j in range(3):
         specs.append({"name": f"dropped-index-generations-{j}", "kind": "generations", "schemes": gen.SCHEMES[j::3],
-                      "scheme": gen.SCHEMES[j], "rounds": 1 if tier == "quick" else 8, "generations": 60, "budget_s": 120})
+                      "scheme": gen.SCHEMES[j], "rounds": 1 if tier == "quick" else 8, "generations": 120, "budget_s": 120})
         specs.append({"name": f"interrupted-and-repeated-{j}", "kind": "interrupted", "schemes": gen.SCHEMES[j::3],
                       "scheme": gen.SCHEMES[j], "rounds": 1 if tier == "quick" else 6, "budget_s": 150})
     return specs
